@@ -122,13 +122,13 @@ func (e *rxEnv) feedPacket(tok string) bool {
 		return true
 	}
 	body := unhx(f[1])
-	if body == nil || (f[0] != "b0" && f[0] != "b1") {
+	stN, isBody := bodyTokStatus(f[0])
+	if body == nil || !isBody {
 		return false
 	}
-	st := tds.PacketHeaderStatus(0)
-	if f[0] == "b1" {
-		st = tds.TDS_BUFSTAT_EOM
-	}
+	// b<status>: the packet header's status byte as a number — b0 / b1 without / with the end-of-message
+	// bit alone, b3 = EOM|ATTNACK, b9 = EOM|EVENT, b8 = EVENT without EOM …
+	st := tds.PacketHeaderStatus(stN)
 	e.ch.WritePacket(&tds.Packet{Header: tds.PacketHeader{MsgType: 4, Status: st, Length: uint16(len(body) + 8)}, Data: append([]byte{}, body...)})
 	return true
 }
@@ -369,11 +369,12 @@ func rxOracleC02(line, out string) string {
 			ref = append(ref, t) // a header-only packet between messages stays where it is
 			continue
 		}
-		if len(p) != 2 || (p[0] != "b0" && p[0] != "b1") {
+		stN, isBody := bodyTokStatus(p[0])
+		if len(p) != 2 || !isBody {
 			return ""
 		}
 		body = append(body, unhx(p[1])...)
-		if p[0] == "b1" {
+		if stN%2 == 1 { // the end-of-message bit, whatever other status bits the packet carries
 			ref = append(ref, "b1:"+hx(body))
 			body = nil
 		} else if i == len(toks)-1 {
@@ -424,7 +425,7 @@ func withMidSends(rng *rand.Rand, first int, emit func(Case)) func(Case) {
 }
 
 func c02Gen(tier string, rng *rand.Rand, emit func(Case)) {
-	emit = withMidSends(rng, 3, emit)
+	emit = withStatusBits(rng, withMidSends(rng, 3, emit))
 	nresp, nrand := 25, 40
 	if tier == "thorough" {
 		nresp, nrand = 150, 300
@@ -920,5 +921,46 @@ func brokenThenNextGen(tier string, rng *rand.Rand, emit func(Case)) {
 			toks = append(toks, cutTokens(next, cuts)...)
 		}
 		emit(Case{Line: fmt.Sprintf("rx %d %d %s", rng.Intn(2), rng.Intn(2), strings.Join(toks, " ")), Kind: "broken-response-then-next"})
+	}
+}
+
+// bodyTokStatus: the status number of a packet token `b<status>` (b0, b1, b3, b9, …)
+func bodyTokStatus(t string) (int, bool) {
+	if len(t) < 2 || t[0] != 'b' {
+		return 0, false
+	}
+	n, err := strconv.Atoi(t[1:])
+	if err != nil || n < 0 || n > 255 {
+		return 0, false
+	}
+	return n, true
+}
+
+// withStatusBits wraps an emit: one case in five is emitted a second time with other status bits added to
+// its packets' headers (ATTNACK, EVENT, …: bits a server may set next to or without the end-of-message bit).
+// Only the end-of-message bit means anything to the receive path.
+func withStatusBits(rng *rand.Rand, emit func(Case)) func(Case) {
+	r := rand.New(rand.NewSource(rng.Int63()))
+	return func(c Case) {
+		emit(c)
+		if r.Intn(5) != 0 || !(strings.Contains(c.Line, " b1:") || strings.Contains(c.Line, " b0:")) {
+			return
+		}
+		f := strings.Fields(c.Line)
+		changed := false
+		for i, t := range f {
+			extra := []int{2, 8, 4, 10, 64}[r.Intn(5)]
+			switch {
+			case strings.HasPrefix(t, "b1:") && r.Intn(2) == 0:
+				f[i] = fmt.Sprintf("b%d:%s", 1|extra, t[3:])
+				changed = true
+			case strings.HasPrefix(t, "b0:") && r.Intn(3) == 0:
+				f[i] = fmt.Sprintf("b%d:%s", extra, t[3:])
+				changed = true
+			}
+		}
+		if changed {
+			emit(Case{Line: strings.Join(f, " "), Kind: c.Kind + "+statusbits"})
+		}
 	}
 }
